@@ -198,6 +198,10 @@ func (g *matchGen) body(names []string, tag string, block bool) *MatchCase {
 // cases builds a case list in which (ci, ai) is the first alternative matching target.
 func (g *matchGen) cases(target any, tripwires bool) ([]*MatchCase, int, int) {
 	ncases := 1 + g.rng.IntN(5)
+	if g.rng.IntN(8) == 0 {
+		ncases = 8 + g.rng.IntN(8) // long case lists (whatever an implementation does to speed those up)
+		g.stats["long-case-list"]++
+	}
 	ci := g.rng.IntN(ncases + 1) // == ncases: nothing matches
 	var out []*MatchCase
 	selAlt := -1
@@ -328,6 +332,7 @@ func c19Enumerated(c *Case) {
 		subj Expr
 		cs   []*MatchCase
 	}
+	pres := map[string][]Stmt{} // statements run before the match of the form of that name
 	x, y := V("x"), V("y")
 	ex := func(e Expr) *MatchCase { return &MatchCase{Body: e} }
 	with := func(mc *MatchCase, pats ...Expr) *MatchCase { mc.Pats = pats; return mc }
@@ -386,8 +391,46 @@ func c19Enumerated(c *Case) {
 			form{"unset element against the literal " + lit.name + " inside an array pattern", Arr(un, N("2")), []*MatchCase{with(ex(S("literal")), Arr(lit.e, N("2"))), with(ex(S("name")), Arr(x, N("2")))}},
 		)
 	}
+	// names bound by an alternative that then fails are not bound in the body of the alternative that matches
+	isUn := func(n string) Expr { return &IsExpr{X: V(n), T: "unknown"} }
+	forms = append(forms,
+		form{name: "failed alternative bound a global's name", subj: Arr(N("7"), N("2")), cs: []*MatchCase{with(ex(Arr(x, y)), Arr(x, N("1")), Arr(y, N("2")))}},
+		form{name: "failed alternative bound a name the body tests", subj: Arr(N("7"), N("2")), cs: []*MatchCase{with(ex(Arr(isUn("p"), V("q"))), Arr(V("p"), N("1")), Arr(V("q"), N("2")))}},
+		form{name: "failed nested alternative bound two names", subj: Arr(Arr(N("1"), N("2")), N("3")), cs: []*MatchCase{with(ex(Arr(isUn("a"), isUn("b"), V("c"))), Arr(Arr(V("a"), N("9")), V("b")), Arr(V("c"), N("3")))}},
+		form{name: "failed alternative then a catch-all name", subj: Arr(N("5"), N("6")), cs: []*MatchCase{with(ex(Arr(isUn("p"), V("q"))), Arr(V("p"), N("0")), V("q"))}},
+		form{name: "two failed alternatives then a literal", subj: Arr(N("5"), N("6")), cs: []*MatchCase{with(ex(S("no")), Arr(V("p"), N("0"))), with(ex(Arr(isUn("p"), isUn("r"), V("s"))), Arr(V("r"), V("p"), N("1")), Arr(N("5"), V("s")))}},
+		form{name: "failed alternative of an earlier case bound a name a later case's body reads", subj: Arr(N("5"), N("6")), cs: []*MatchCase{with(ex(S("no")), Arr(V("early"), N("0")), Arr(V("early"), V("early2"), N("1"))), with(ex(Arr(isUn("early"), isUn("early2"), V("z"))), V("z"))}},
+	)
+	pres["failed alternative bound a global's name"] = []Stmt{asg(x, S("outer"))}
+	// many cases: the first matching case wins and literals match by ==, whatever the number of cases
+	lits := func(vals ...Expr) []*MatchCase {
+		var cs []*MatchCase
+		for i, v := range vals {
+			cs = append(cs, with(ex(S("case"+strconv.Itoa(i))), v))
+		}
+		return cs
+	}
+	nums := func(from, to int) []Expr {
+		var out []Expr
+		for i := from; i <= to; i++ {
+			out = append(out, N(strconv.Itoa(i)))
+		}
+		return out
+	}
+	forms = append(forms,
+		form{name: "nine number cases, string subject equal by coercion", subj: S("07"), cs: append(lits(nums(1, 9)...), with(ex(S("other")), V("o")))},
+		form{name: "ten number cases, subject '1.0'", subj: S("1.0"), cs: lits(nums(0, 9)...)},
+		form{name: "string case last of ten, a number case equal by coercion first", subj: S("x"), cs: lits(append(nums(0, 8), S("x"))...)},
+		form{name: "twelve string cases, number subject", subj: N("7"), cs: append(lits(S("a"), S("b"), S("c"), S("d"), S("e"), S("f"), S("07"), S("7"), S("g"), S("h"), S("i"), S("j")), with(ex(S("other")), V("o")))},
+		form{name: "eight number cases, boolean subject", subj: &BoolLit{V: true}, cs: lits(nums(2, 9)...)},
+		form{name: "nine cases, true subject, 1 among them", subj: &BoolLit{V: true}, cs: lits(append(nums(3, 9), N("1"), S("true"))...)},
+		form{name: "sixteen cases with an array pattern in the middle", subj: Arr(N("4")), cs: append(append(lits(nums(0, 7)...)[:0:0], with(ex(x), Arr(x))), lits(nums(0, 14)...)...)},
+		form{name: "ten cases, duplicate literal: the first wins", subj: N("3"), cs: lits(N("1"), N("2"), S("3"), N("3"), N("4"), N("5"), N("6"), N("7"), N("8"), N("3"))},
+		form{name: "ten cases, nothing matches", subj: S("zz9"), cs: lits(nums(1, 10)...)},
+		form{name: "ten cases, empty string subject against 0", subj: S(""), cs: lits(append(nums(1, 9), N("0"))...)},
+	)
 	for _, f := range forms {
-		p := &Program{Items: []any{&Rule{Kind: "BEGIN", Body: Blk(Pr(S("value"), jsonOf(&MatchExpr{Subj: f.subj, Cases: f.cs})), Pr(S("after")))}}}
+		p := &Program{Items: []any{&Rule{Kind: "BEGIN", Body: &Block{Stmts: append(append([]Stmt{}, pres[f.name]...), Pr(S("value"), jsonOf(&MatchExpr{Subj: f.subj, Cases: f.cs})), Pr(S("after")))}}}}
 		c.NonTrivial("form:" + f.name)
 		c.Count("enumerated_forms")
 		m2(c, &M2Case{Prog: p, Desc: f.name})
